@@ -84,8 +84,9 @@ Theorem C16_copies_fresh : forall t t' rem n,
 Proof. exact expand_fresh. Qed.
 Print Assumptions C16_copies_fresh.
 
-(** Validity is preserved — PARTIAL: proved on the declared content model (the tree-level statement
-    is [C16_valid_full_statement] below; missing: the link matcher = L of C01 and tree = nodes of C05): for a rule of the references shape,
+(** Validity is preserved — the language-level part (named _partial because it speaks about the
+    declared content model only; the tree-level statement [C16_valid_full_statement] below is proved
+    from it in Properties/Valid.v as [C16_valid_full]): for a rule of the references shape,
     replacing the references child by the children of an element governed by the same rule
     (whose child names [w_src] are in the language and hold no "references") gives a child
     sequence of the language. *)
@@ -109,10 +110,22 @@ Theorem C16_valid_copies : forall c c', copy_of c c' -> view c' = view c.
 Proof. exact copy_view. Qed.
 Print Assumptions C16_valid_copies.
 
-(** The tree-level statement "validate.tree passes before => passes after" combines the three
-    with C01 (child validation = membership in L, under greedy_ok) and C05 (tree validation =
-    conjunction of node validations); it is executed against the implementation by the
-    statement search of harness/c16.py. *)
+(** The tree-level statement "validate.tree passes before => passes after".  It is PROVED in
+    Properties/Valid.v (work package C01, built and counted with this check) as
+    [C16_valid_full] (and [C16_valid_deep] for node-by-node validity including metadata
+    content), by combining the three theorems above with C01 (child validation = membership in
+    L under greedy_ok), C03 and C05.  The proved statement differs from the shape kept below in
+    its hypotheses:
+      - the shipped tables [shipped] instead of an arbitrary [tb] (it needs C16_table, C01_table,
+        C03_table and "no rule allowing references is a mixed-content rule", all re-proved by
+        enumeration of the regenerated tables);
+      - the preconditions of C16_eq: [attrs_wf], [spec_ok], [refs_flat], [ns_agree];
+      - "same rule" is required for EVERY parent [p] holding a references node [r] that names
+        [x] (forall p, not exists p: trees are values, the same subtree value may occur under
+        several parents);
+      - [metadata_childless t]: validate.tree does not look below metadata while expansion does
+        replace references there ([C16_valid_deep] drops this for deep validity).
+    The statement is also executed against the implementation by harness/c16.py. *)
 Definition C16_valid_full_statement : Prop :=
   forall orc tb t t' rem n,
     validate_tree orc tb (view t) = Errs [] -> expand t = EOk t' rem n ->
